@@ -46,12 +46,31 @@ CHECKS = {
              "whole punctuation alphabet and wrap-line lists.",
         technique="Coq proof by induction over the payload (tokenizer literal scanner with brace depth) and over converted forests + model/implementation correspondence and payload oracle",
         ref="DESIGN.md §5 C04"),
+    'C05': dict(
+        text="Coq theorems about the stylesheet pipeline model: end-to-end value_seq_expand from the STRING (numbers and colours of any "
+             "length with the statement's connectors, +-joined properties, trailing !), hex round trip and short-hex iff (complete "
+             "per-channel sweep), the four hex forms, alpha -> rgba with canonical decimals, unit decision rule, dash rule on the tokenizer "
+             "step, important rule, line shape; every built-in property key satisfies the theorem's hypothesis (sweep). Independent "
+             "oracle re-states the value rules over a product grammar x syntaxes x unit/shortHex options; colour value never changes.",
+        technique="Coq proof (tokenizer/parser/resolver/formatter composition over value sequences, complete finite sweeps for channels and alpha digits) + generated snippet/option tables + in-Coq model evaluation compared with the implementation",
+        ref="DESIGN.md §5 C05",
+        note=NOTE + " Theorems that mention the scorer or the configuration record list the kernel primitives PrimFloat.* / PrimInt63.* under Print Assumptions (declared Primitive, not axioms)."),
+    'C06': dict(
+        text="Coq theorems: keys_reach_self as a COMPLETE vm_compute sweep over every key of the regenerated built-in table (matcher selects "
+             "the key's own snippet, output is its property + first value/tabstop or raw body), keywords_resolve sweep over every "
+             "(snippet, letters-only keyword) in five letter cases, keyword_any_case for all tables, score_case_invariant for all "
+             "strings (PrimFloat, bit-exact), exact_key_wins for all tables, user_overrides, scope filters. One listed finding "
+             "(keywords containing a digit). Oracle over every key/keyword x syntax x scope and random user tables.",
+        technique="Coq proof + complete finite sweeps over the generated snippet table (PrimFloat scorer evaluated by vm_compute) + in-Coq model evaluation compared with the implementation",
+        ref="DESIGN.md §5 C06",
+        note=NOTE + " Theorems that mention the scorer list the kernel primitives PrimFloat.* / PrimInt63.* under Print Assumptions (declared Primitive, not axioms)."),
     'C07': dict(
         text="Coq theorems for the markup model: for ALL abbreviations and ALL configurations with well-formed snippet tables expand_markup "
              "returns Ok or a Scanner/Token parse error with 0 <= pos <= length, never Internal, never OutOfFuel (tokenize_safe, "
              "parser_safe for all token lists, convert_safe, resolve_safe with tight fuel bound, complete sweep of the regenerated "
-             "built-in tables). Stylesheet half, BEM, lorem text and CPython's recursion limit are implementation-oracle only "
-             "(exhaustive short strings, random and mutated abbreviations, random option sets); two listed recursion-limit findings.",
+             "built-in tables); the same for the stylesheet model (C07_css_expand_safe, parser over all token lists with fuel adequacy). "
+             "BEM, lorem text and CPython's recursion limit are implementation-oracle only (exhaustive short strings, random and "
+             "mutated abbreviations, random option sets); two listed recursion-limit findings.",
         technique="Coq proof stage-wise (tokenizer, parser over all token lists, converter, snippet resolution with fuel bound, composition) + complete vm_compute sweep of generated snippet tables + exhaustive short-string outcome-class correspondence",
         ref="DESIGN.md §5 C07"),
     'C08': dict(
@@ -88,6 +107,24 @@ CHECKS = {
              "tag proved for abbreviations free of the three listed finding shapes (_partial), with refutation witnesses for those shapes.",
         technique="Coq proof by induction over the backward scan with bracket stack + generated char tables + model/implementation correspondence",
         ref="DESIGN.md §5 C11"),
+    'C12': dict(
+        text="Coq theorems about the HTML formatter model: format_cosmetic (for all trees, two option records differing only in the "
+             "formatting options give equal content: relational induction), level_is_depth and per-element line-break indentation "
+             "(_partial: no single statement over every line-break chunk; push_snippet path), comments_additive (_partial: position "
+             "of the comment not expressed), selfclose_local (_partial: compactBoolean off; refuted with it on = listed finding), "
+             "level_restored. Oracle: same abbreviation under two option sets compared after stripping inter-tag whitespace; "
+             "indentation of every line vs open elements; comments; self-closing styles; html/xml/xsl/jsx/vue/svelte. Two listed findings.",
+        technique="Coq proof by relational induction over the tree (two runs, related streams) and level invariants + callback-event correspondence with the implementation + two-option-set oracle",
+        ref="DESIGN.md §5 C12"),
+    'C13': dict(
+        text="Coq theorems: every stream produced by the HTML and indent formatters is built from the stream primitives (reachability), "
+             "and for every reachable stream every callback event sits at exactly the offset, line and column it reports in the final "
+             "string (callback_positions_exact; any newline string: relative to the stream's own line ends); tabstops_in_order for "
+             "trees without explicit fields (HTML and haml/pug/slim), explicit fields keep relative order and are disjoint across values, "
+             "field counter monotone. Stylesheet formatter: covered by the stream theorem and the oracle. Oracle checks every callback "
+             "invocation against the final string (markup and stylesheet syntaxes, \n / \r\n / custom newlines, indent, baseIndent).",
+        technique="Coq proof of a stream-position invariant over all operation sequences + reachability of formatter streams by induction over the tree + callback-event correspondence and position oracle",
+        ref="DESIGN.md §5 C13"),
     'C14': dict(
         text="Coq theorems: snippet resolution never runs out of fuel with the fuel markup_parse supplies (pigeonhole on the duplicate-free "
              "stack), nesting depth <= |snippets|, for ALL tables incl. self-referencing and mutually recursive ones; alias_merge on "
